@@ -116,6 +116,8 @@ Inductive bop :=
 | BFind (h start stop needle : Z)
 | BReverse (h off len : Z)
 | BSwap (h i j : Z)
+| BReadFile (content : list byte) (n : Z)   (* let f = fs.open(path, "r"); let b = fs.read_bytes(f, n); fs.close(f); b
+                                              on a readable file with this content, 0 <= n <= MAX_BUF *)
 | BFsClose (h : Z)     (* fs.close applied to a handle of this table: these programs open no file, so it must refuse *)
 | BNetClose (h : Z)    (* net.close: documented no-op for anything that is not a socket or listener *)
 | BNonInt.   (* any std.bytes call with a non-int where a handle / offset / length / integer value is required,
@@ -336,6 +338,11 @@ Definition b_step (s : bstate) (o : bop) : bstate * bres :=
           | _, _ => (s, BErr)
           end
       end
+  | BReadFile content n =>
+      (* the open file occupies the first free slot while the buffer is stored, and is closed again *)
+      let '(s1, k) := store_resource s [] in
+      let '(s2, h) := store_resource s1 (firstn (Z.to_nat n) content) in       (* a short read keeps what was read *)
+      (upd_N s2 k None, BOkInt (Z.of_N h))
   | BFsClose _ => (s, BErr)                       (* and must leave the byte buffer (if any) alone *)
   | BNetClose h => (s, if (h <? 0)%Z then BErr else BOkUnit)
   | BNonInt => (s, BErr)
@@ -514,6 +521,7 @@ Definition bspec_step (m : smap) (o : bop) (hint : bres) : smap * bres :=
           | _, _ => (m, BErr)
           end
       end
+  | BReadFile content n => sp_new m (firstn (Z.to_nat n) content) hint
   | BFsClose _ => (m, BErr)
   | BNetClose h => (m, if (h <? 0)%Z then BErr else BOkUnit)
   | BNonInt => (m, BErr)
